@@ -12,6 +12,7 @@ import zlib
 
 from framework import Case, coq_property, REPO, sh
 import handler_diff as hd
+import samples
 
 EPOCHS = [315532800, 315532801, 1577836800, 1577836801, 1709337600, 4354819199, 4354819198, 946684800]
 DOS_LO, DOS_HI = 315532800, 4354819199
@@ -160,6 +161,10 @@ def gen_cases(rng, tier):
                 zi.external_attr = 0o100644 << 16
                 z.writestr(zi, bytes((k * 13 + k // 255) % 256 for k in range(size)))
         add(bio.getvalue(), e, ["big-members"], None, file_mtime=e + 5)
+    # a member the tool cannot copy (encrypted; a compression method it has no codec for): refused as a whole, in a real run and under --check
+    for kind in ("encrypted", "bzip2", "lzma"):
+        for chk in (False, True):
+            add(samples.odd_member_zip(kind, 1577836800), 1577836800, ["odd-member", kind], None, file_mtime=1577836800 + 5, check=chk)
     # outside the class / malformed: the crate must fail cleanly
     base, _ = build_zip(rng, 1577836800, {})
     for k in (0, 1, 10, 21, 22, len(base) // 2, len(base) - 1):
@@ -192,7 +197,12 @@ def read_members(x):
         lh = x[zi.header_offset:zi.header_offset + 30]
         ltime, ldate = struct.unpack("<HH", lh[10:14]) if len(lh) == 30 else (None, None)
         date, time = dos_words(*zi.date_time)
-        out.append({"name": zi.filename, "method": zi.compress_type, "crc": zi.CRC, "usize": zi.file_size, "data": data, "date": date, "time": time, "ldate": ldate, "ltime": ltime,
+        # the stored (compressed, possibly encrypted) bytes, for members the reference reader cannot decode
+        craw = None
+        if len(lh) == 30 and lh[:4] == b"PK\x03\x04":
+            nl, xl = struct.unpack("<HH", lh[26:30])
+            craw = x[zi.header_offset + 30 + nl + xl:zi.header_offset + 30 + nl + xl + zi.compress_size]
+        out.append({"enc": zi.flag_bits & 1, "craw": craw, "name": zi.filename, "method": zi.compress_type, "crc": zi.CRC, "usize": zi.file_size, "data": data, "date": date, "time": time, "ldate": ldate, "ltime": ltime,
                     "unix": (zi.external_attr >> 16) if zi.create_system == 3 else None, "system": zi.create_system})
     return out
 
@@ -242,9 +252,13 @@ def oracle_with_meta(meta):
         edt = datetime.datetime.utcfromtimestamp(e - e % 2)
         want_date, want_time = dos_words(edt.year, edt.month, edt.day, edt.hour, edt.minute, edt.second)
         for i, (b, a) in enumerate(zip(before, aft)):
-            for k in ("name", "method", "crc", "usize", "data"):
+            for k in ("name", "method", "crc", "usize", "enc", "data"):
                 if k == "data" and b["data"] is None:
-                    continue                  # the reference reader cannot decode this member of the (damaged) input: nothing to compare with
+                    # the reference reader cannot decode this member of the input (damaged, encrypted, a method it has no codec for):
+                    # then the stored bytes are what has to survive
+                    if b["craw"] is not None and a["craw"] != b["craw"]:
+                        fails.append(("member-stored-bytes", "member %d (%r): stored bytes changed" % (i, b["name"])))
+                    continue
                 if a[k] != b[k]:
                     fails.append(("member-" + k, "member %d (%r): %s changed" % (i, b["name"], k)))
             if b["unix"] is not None and b["unix"] != 0:
